@@ -200,6 +200,12 @@ class Decimal(SimpleModel):
 
     @staticmethod
     def validate_native(cls, value):
+        if (isinstance(value, decimal.Decimal) and value.is_nan()) or \
+                              (isinstance(value, float) and math.isnan(value)):
+            # comparing NaN with the (decimal) bounds raises InvalidOperation.
+            # It's not inside any range.
+            return False
+
         return SimpleModel.validate_native(cls, value) and (
             value is None or (
                 value >  cls.Attributes.gt and
